@@ -53,6 +53,8 @@ class Session:
             "bc": 0,
             "shaving": 0,
             "shave_try": 0,
+            "shave_ok": 0,
+            "shave_ko": 0,
             "choice": 0,
             "backtrack_ok": 0,
             "backtrack_fail": 0,
@@ -301,6 +303,24 @@ def install():
         H.VAR_HEURISTIC_FCTS[i] = _wrap_var_heuristic(i, f)
     for i, f in enumerate(list(H.DOM_HEURISTIC_FCTS)):
         H.DOM_HEURISTIC_FCTS[i] = _wrap_dom_heuristic(i, f)
+    # shaving attempts (shave_bound is looked up by name inside the shaving algorithm)
+    ORIG["shave_bound"] = M_SH.shave_bound
+
+    def shave_bound(*a):
+        s_ = CURRENT
+        before = None
+        if s_ is not None and s_.detail:
+            # a[12] = shr_domains_stack, a[15] = stacks_top, a[1] = dom_idx
+            before = a[12][int(a[15][0]), int(a[1])].copy()
+        r = ORIG["shave_bound"](*a)
+        if s_ is not None:
+            s_.n["shave_try"] += 1
+            s_.n["shave_ok" if r else "shave_ko"] += 1
+            if s_.detail:
+                s_.emit("on_shave", int(a[0]), int(a[1]), bool(r), before, a)
+        return r
+
+    M_SH.shave_bound = shave_bound
     # backtrack (imported by name in the solver and in shaving)
     ORIG["backtrack"] = M_CP.backtrack
     M_BS.backtrack = _wrap_backtrack(M_CP.backtrack, "solver")
